@@ -849,7 +849,6 @@ def _empty_string():
 @_formats('"$default"? -> "$default"')
 @_formats("delimited-argument-list? -> delimited-argument-list")
 @_formats("doc? -> doc")
-@_formats("doc -> Documentation")
 @_formats("enum-value-body? -> enum-value-body")
 @_formats('equality-operator -> "=="')
 @_formats("equality-or-greater-expression-right -> equality-expression-right")
@@ -901,6 +900,14 @@ def _empty_string():
 @_formats("unconditional-struct-field -> virtual-field")
 def _identity(x):
     return x
+
+
+@_formats("doc -> Documentation")
+def _documentation(doc):
+    # Trailing whitespace is dropped when the line is rendered, so it must not
+    # count towards the width of the documentation column either; otherwise
+    # formatting already-formatted text would move later columns.
+    return doc.rstrip()
 
 
 @_formats("argument-list -> expression comma-then-expression*")
